@@ -365,6 +365,36 @@ def check(ctx: Ctx) -> None:
     # ids are what routes an item to its channel: two channels with one id mix their items
     from .C18 import check_alloc_lock
     check_alloc_lock(ctx, "C02.k")
+    with ctx.obligation("C02.m", "stale-frame-dropped-undecoded") as ob:
+        # a data frame for a channel that is gone is dropped *without decoding it*: decoding (loads_internal) outside the
+        # callback's `except Exception` scope happens only once the target channel is established non-None -- an item that
+        # cannot be rebuilt without its channel (it carries channels itself) would otherwise end the receiver thread
+        from ..terms import NONE as _Nm, evaluator as _evm, tv as _tvm
+        from ._chan import in_exception_handler_scope as _scope
+        flr = repo.func(f"{GB}.ChannelFactory._local_receive")
+        evm = _evm(repo, flr)
+        nd = 0
+        seen_m = set()
+        for (_p, st_) in evm.run(limit=20000):
+            for e in st_.events:
+                if e.kind == "call" and str(e.callee or "").endswith("loads_internal"):
+                    contained = _scope(repo, flr, e.node)
+                    chan = e.args[1] if len(e.args) > 1 else e.kwargs.get("channelfactory", e.kwargs.get("channel"))
+                    alive = chan is not None and _tvm(("cmp", "is", chan, _Nm), dict(st_.cond[:e.ncond])) is False
+                    if id(e.node) not in seen_m:
+                        nd += 1
+                        seen_m.add(id(e.node))
+                        ob.site(flr, e.node, "payload decoded inside the callback's except scope, or with the channel known to exist", contained=contained, channel_alive=alive)
+                    if not (contained or alive) and ("v", id(e.node)) not in seen_m:
+                        seen_m.add(("v", id(e.node)))
+                        ob.violation(flr, e.node, "a data frame is decoded before it is known that its channel still exists (and outside any `except Exception`): a stale frame "
+                                                  "carrying a channel raises LoadError in the receiver thread and every other channel of the gateway stops receiving",
+                                     construct="decode before liveness test")
+        ob.require(nd >= 2, f"{nd} payload decoding sites in _local_receive (floor 2)")
+
+    # items sent by the worker after Gateway.exit() are still delivered: the socket transport half-closes like a pipe
+    from .C16 import check_socket_halfclose
+    check_socket_halfclose(ctx, "C02.n")
     # a read that takes more than the frame's bytes swallows the start of the next frame: later items are lost
     with ctx.obligation("C02.l", "exact-read") as ob:
         from .C08 import check_exact_read
